@@ -407,12 +407,18 @@ class Gen:
             a = self.gen_arr_literal(depth, sc, pure)
             n = len(a[1])
         self.f('at')
-        if self.c.oob and r.random() < 0.05:
+        if self.c.oob and r.random() < 0.05 and not (pure and not self.c.multi_effect_args):
+            # the trap is an effect: it must not share an argument list with another effect while native code evaluates arguments
+            # right to left (has_effect knows the node through TRAP_NODES; a sibling with an effect asks for pure operands)
             self.f('oob')
+            e = None
             if n is not None:
-                return ('at', a, ('num', r.choice([n, n + 1, -1, -n - 1, 2**32 + (n - 1 if n else 0), INT64_MAX, INT64_MIN + 1, 2**31])))
-            if a[0] == 'var':
-                return ('at', a, r.choice([('len', a), ('num', -1), ('bin', 'add', ('len', a), ('num', 2**32))]))
+                e = ('at', a, ('num', r.choice([n, n + 1, -1, -n - 1, 2**32 + (n - 1 if n else 0), INT64_MAX, INT64_MIN + 1, 2**31])))
+            elif a[0] == 'var':
+                e = ('at', a, r.choice([('len', a), ('num', -1), ('bin', 'add', ('len', a), ('num', 2**32))]))
+            if e is not None:
+                TRAP_NODES[id(e)] = e
+                return e
         if n is not None and n > 0:
             eff_a = has_effect(a, sc['fns_by_name'])
             if r.random() < 0.7:
@@ -761,8 +767,13 @@ def calls_any(e):
     return False
 
 
+TRAP_NODES = {}         # id(node) -> node: deliberately out-of-range (at a i) nodes made by Gen.gen_array_use (kept alive here)
+
+
 def has_effect(e, fns):
     t = e[0]
+    if t == 'at' and TRAP_NODES.get(id(e)) is e:
+        return True
     if t in STR_NODES:
         return any(has_effect(a, fns) for a in str_operands(e))
     if t in ('num', 'bool', 'str', 'var'):
